@@ -86,6 +86,15 @@ def plan(tier, seed):
     for c in CONSUMERS:
         for i in range(2 if quick else 12):
             P.add("consumer", which=c, fseed=int(rng.integers(1 << 30)))
+    # kept-object histories: an expression object that the caller keeps must give the same
+    # output for the same input after other expressions have been built from it
+    rng = P.rng("kept")
+    for i in range(80 if quick else 1500):
+        shape = [int(rng.integers(1, 5)) for _ in range(int(rng.integers(1, 4)))]
+        P.add("kept", leaves=[lops.gen_endo(rng, shape, 4) for _ in range(4)], shape=shape,
+              base=pick(rng, ["Add", "Add", "Sub", "Compose", "Scale", "Hstack", "Vstack",
+                              "Diag"]),
+              order=[int(v) for v in rng.permutation(7)])
     for order in ("complex-first", "real-first"):
         for i in range(1 if quick else 3):
             P.add("history", order=order, fseed=int(rng.integers(1 << 30)), fresh=True,
@@ -629,8 +638,66 @@ def run_history(case):
     return held(sig, {k: str(v[0].dtype) for k, v in got.items()}, len(got))
 
 
+def run_kept(case):
+    import sigpy as sp
+    L = sp.linop
+    rng = rng_for(case)
+    shape = tuple(case["shape"])
+    A, B, C, D = [lops.build(d) for d in case["leaves"]]
+    base = case["base"]
+    S = {"Add": lambda: A + B, "Sub": lambda: A - B, "Compose": lambda: A * B,
+         "Scale": lambda: (2.0 - 0.5j) * A, "Hstack": lambda: L.Hstack([A, B], axis=0),
+         "Vstack": lambda: L.Vstack([A, B], axis=0),
+         "Diag": lambda: L.Diag([A, B], iaxis=0, oaxis=0)}[base]()
+    sig = "kept|%s|%dd" % (base, len(shape))
+    wit = dict(case)
+    x = crandn(rng, tuple(S.ishape))
+    y = crandn(rng, tuple(S.oshape))
+    SH, SN = S.H, S.N
+
+    def snapshot():
+        return [np.array(S(x)), np.array(S.H(y)), np.array(SH(y)), np.array(S.N(x)),
+                np.array(SN(x)), repr(S), [int(v) for v in S.ishape], [int(v) for v in S.oshape]]
+    first = snapshot()
+    endo = list(S.ishape) == list(S.oshape) == list(shape)
+    builders = [
+        ("S + C", lambda: (S + C) if endo else (S + S)),
+        ("C + S", lambda: (C + S) if endo else (S + S)),
+        ("S - D", lambda: (S - D) if endo else (S - S)),
+        ("S * C and D * S", lambda: ((S * C, D * S) if endo else (S * L.Identity(S.ishape),))),
+        ("3 * S and S * (1 - 2j)", lambda: (3 * S, S * (1 - 2j))),
+        ("Vstack([S, S]) and Hstack([S, S])", lambda: (L.Vstack([S, S]), L.Hstack([S, S]))),
+        ("(S + S).H and (S * 2).N", lambda: ((S + S).H, (S * 2).N)),
+    ]
+    n = 0
+    for j in case["order"]:
+        tag, f = builders[j]
+        try:
+            out = f()
+            for t in (out if isinstance(out, tuple) else (out,)):
+                t(crandn(rng, tuple(t.ishape)))           # use the new expression once
+        except Exception as e:
+            inn = _innermost(e)
+            return violated(sig, "building / applying %s from a kept expression raised %s: %s"
+                            % (tag, type(inn).__name__, str(inn)[:150]), wit,
+                            mech="kept-raised:" + base)
+        now = snapshot()
+        n += 1
+        names = ["S(x)", "S.H(y)", "the S.H obtained earlier", "S.N(x)",
+                 "the S.N obtained earlier", "repr(S)", "S.ishape", "S.oshape"]
+        for nm_, a_, b_ in zip(names, first, now):
+            same = np.array_equal(a_, b_) if isinstance(a_, np.ndarray) else a_ == b_
+            if not same:
+                return violated(sig, "after %s was built from the kept expression S = %s, %s "
+                                "is no longer what it was for the same input" % (tag, base, nm_),
+                                wit, mech="kept:" + base)
+    return held(sig, {"rebuilds": n}, n * 8, True)
+
+
 def run_case(case):
     g = case["gen"]
+    if g == "kept":
+        return run_kept(case)
     if g.startswith("lin:") or g.startswith("lin-big:"):
         return run_lin(case)
     if g == "func":
